@@ -327,12 +327,13 @@ func cmdCheck(args []string) int {
 			}
 		}
 		native := "skipped"
-		if h.ReplayMode == "model-only" {
+		modelOnly := h.ReplayMode == "model-only" || v.ModelOnly
+		if modelOnly {
 			native = "model-only (the violated clause is not observable natively)"
 		}
 		writeReplay(file, prop, v, args, native)
 		confirmed := true
-		if !*noReplay && h.ReplayMode != "model-only" {
+		if !*noReplay && !modelOnly {
 			out, ok := nativeReplay(set, h, file)
 			replays++
 			native = out
